@@ -228,7 +228,18 @@ fn resynth() -> Result<(), ()> {
                 Some(p) => p.clone(),
                 None => PathBuf::new(),
             };
-            out.push(p.file_stem().unwrap());
+            let stem = match p.file_stem() {
+                Some(stem) => stem,
+                None => {
+                    /* "..", "/", "": nothing to name the output after, and not a file anyway */
+                    print!("{}: ", p.display());
+                    error!(stdout, "error");
+                    println!(": process_file: not a file name");
+                    ret = Err(());
+                    continue;
+                }
+            };
+            out.push(stem);
             out.set_extension("pcap");
             Cow::Owned(out)
         };
